@@ -36,6 +36,7 @@ type Engine struct {
 	pkgs       map[string]*packages.Package
 	shapes     map[string]*Shape
 	fieldNames map[string]bool
+	typedFields map[string]bool
 	decls      map[string]string
 	declOrder  []string
 	nfresh     int
@@ -60,6 +61,9 @@ type Engine struct {
 	uf         map[string]bool
 	curFunc    string
 	bytesAxiom bool
+	onStore    func(st *State, key, ref string)
+	onBaseRefArray func(arr string)
+	funcFacts  map[string][]string // per function: facts about the entry heap, added to every obligation of that function
 }
 
 type axiomTerm struct {
@@ -70,7 +74,7 @@ type axiomTerm struct {
 
 func newEngine() *Engine {
 	return &Engine{
-		pkgs: map[string]*packages.Package{}, shapes: map[string]*Shape{}, fieldNames: map[string]bool{},
+		pkgs: map[string]*packages.Package{}, shapes: map[string]*Shape{}, fieldNames: map[string]bool{}, typedFields: map[string]bool{},
 		decls: map[string]string{}, strLits: map[string]string{}, contracts: map[string]*Contract{},
 		specFuncs: map[string]*SpecFunc{}, consts: map[string]string{}, globals: map[string]*GhostGlobal{},
 		dropped: map[string]bool{}, typeTags: map[string]int{}, notes: map[string]bool{}, assumed: map[string]bool{},
@@ -203,12 +207,17 @@ func (e *Engine) heapLeaves(st *State, key string, sh *Shape) []string {
 func (e *Engine) baseHeap(key string, sh *Shape) []string {
 	sorts := e.leafSorts(sh)
 	out := make([]string, len(sorts))
+	isRef := e.leafRefs(sh)
 	for i, s := range sorts {
 		name := smtSym(fmt.Sprintf("H.%s.%d", key, i))
 		if len(sorts) == 1 {
 			name = smtSym("H." + key)
 		}
+		_, seen := e.decls[name]
 		out[i] = e.declConst(name, "(Array Int "+s+")")
+		if !seen && len(isRef) == len(sorts) && isRef[i] && e.onBaseRefArray != nil {
+			e.onBaseRefArray(out[i])
+		}
 	}
 	return out
 }
@@ -245,6 +254,9 @@ func (e *Engine) heapWrite(st *State, key string, sh *Shape, ref string, v *Valu
 }
 
 func (e *Engine) logStore(st *State, key, ref string) {
+	if e.onStore != nil && ref != "*" && ref != "~fresh" {
+		e.onStore(st, key, ref)
+	}
 	m := st.storeLog[key]
 	if m == nil {
 		m = map[string]bool{}
